@@ -22,5 +22,13 @@ package config
 //@ func GenerateCrawlConfig
 //@   property C05
 //@   requires config != nil
+//@   attr hooked @C05 readLocalExclusionFile,readRemoteExclusionFile,compileRegexes
+//@   local nRead int = 0
+//@   local nCompiled int = 0
+//@   after readLocalExclusionFile(file)#1: nRead = nRead + 1
+//@   after readRemoteExclusionFile(file)#1: nRead = nRead + 1
+//@   after compileRegexes(regexes)#1: nCompiled = nCompiled + 1
+//@   loop range invariant [every-file] nCompiled == nRead // C05: an exclusion-file regex - the patterns of every exclusion file given are compiled (one compilation per file read, before the next file is read)
 //@   loop range invariant [defaults] config != nil && utils.strIn(config.ExcludeHosts, "archive.org") && utils.strIn(config.ExcludeHosts, "archive-it.org")
+//@   ensures [every-file] result == nil ==> nCompiled == nRead
 //@   ensures [defaults] result == nil ==> config != nil && utils.strIn(config.ExcludeHosts, "archive.org") && utils.strIn(config.ExcludeHosts, "archive-it.org") // C05: archive.org and archive-it.org are always excluded
